@@ -402,6 +402,25 @@ Definition container_get (s : store) (c : option addr) (k : key) (hsl : list han
   | KeyObj _ | KeyIdOf _ => inr EOther     (* resolved by the caller *)
   end.
 
+(* FeatureContainer.__getitem__: on KeyError the features are scanned, in order, for one whose DATA has that id or
+   name (feat.data raises RuntimeError when the data link is gone) *)
+Fixpoint feature_by_data (s : store) (t : tok) (l : list (tok * addr)) : (tok * addr) + err :=
+  match l with
+  | [] => inr EKey
+  | (k, a) :: r =>
+      match child s a (TS s_data) with
+      | None => inr ERuntime
+      | Some x => if opt_eqb tok_eqb (entity_id s x) (Some t) || opt_eqb tok_eqb (entity_name s x) (Some t)
+                  then inl (k, a) else feature_by_data s t r
+      end
+  end.
+Definition container_get_c (s : store) (c : ckind) (ca : option addr) (k : key) (hsl : list handle)
+  : (tok * addr) + err :=
+  match container_get s ca k hsl, c, k with
+  | inr EKey, CFeatures, KeyName t => feature_by_data s t (cont_links s ca)
+  | r, _, _ => r
+  end.
+
 (* LinkContainer.__getitem__: position as Container; id = link name; name = scan of `name` attrs *)
 Fixpoint find_by_name_attr (s : store) (n : tok) (l : list (tok * addr)) : option (tok * addr) :=
   match l with
@@ -443,7 +462,7 @@ Definition api_lookup (ph : N) (c : ckind) (k0 : key) : M N :=
   p <- the_handle ph ;; k <- resolve_key k0 ;;
   guard (has_container (hk p) c) EOther ;;;
   s <- get_st ;;
-  r <- lift_sum (container_get (sto s) (child (sto s) (ha p) (TS (cgroup (hk p) c))) k (hs s)) ;;
+  r <- lift_sum (container_get_c (sto s) c (child (sto s) (ha p) (TS (cgroup (hk p) c))) k (hs s)) ;;
   new_handle (mkH (snd r) (ckind_item c) (ha p)
                   (match c, hk p with
                    | CSources, KBlock => ha p        (* a source's owning block *)
@@ -491,7 +510,7 @@ Definition api_delete (ph : N) (c : ckind) (k0 : key) : M unit :=
                                   match child (sto s) (ha x) (TS s_data) with Some _ => true | None => false end) ERuntime ;;;
                            guard (negb (ekind_eqb (hk x) KFeature)) EType ;;;
                            guard (ekind_eqb (hk x) (ckind_item c)) EType ;;; ret (ha x)
-             | _ => r <- lift_sum (container_get (sto s) (child (sto s) (ha p) (TS (cgroup (hk p) c))) k (hs s)) ;;
+             | _ => r <- lift_sum (container_get_c (sto s) c (child (sto s) (ha p) (TS (cgroup (hk p) c))) k (hs s)) ;;
                     ret (snd r)
              end) ;;
   let victims :=
@@ -761,7 +780,8 @@ Definition api_referring (ph : N) (c : ckind) : M (list wtok) :=
 (* Entity.force_created_at(t) / force_updated_at(t) *)
 Definition api_force (ph : N) (created : bool) (t : Z) : M unit :=
   p <- the_handle ph ;;
-  guard (negb (ekind_eqb (hk p) KFile || ekind_eqb (hk p) KFeature)) EOther ;;;
+  (* File.force_created_at / force_updated_at exist as well (the root node carries the file's timestamps) *)
+  guard (negb (ekind_eqb (hk p) KFeature)) EOther ;;;
   wr (fun s => set_attr s (ha p) (if created then k_created else k_updated) (Some (AInt t))).
 
 (* close + open again: the file content is what it is; all Python objects are gone *)
@@ -969,10 +989,13 @@ Definition exec (o : op) (now : Z) : st -> st * ores :=
   end.
 
 (* a fresh file: root with "data" and "metadata" *)
+(* File.__init__ stamps a new file with the clock (the histories create it at second [file_birth]) *)
+Definition file_birth : Z := 1000.
 Definition init_store : store :=
   let s0 := mkStore [empty_node] in
   let '(s1, _) := ensure_group s0 0%nat (TS s_data) in
-  let '(s2, _) := ensure_group s1 0%nat (TS s_metadata) in s2.
+  let '(s2, _) := ensure_group s1 0%nat (TS s_metadata) in
+  set_attr (set_attr s2 0%nat k_created (Some (AInt file_birth))) 0%nat k_updated (Some (AInt file_birth)).
 Definition init_st : st := mkSt init_store [mkH 0%nat KFile 0%nat 0%nat] true false 0.
 
 (* run a history; the clock of op number i is [t0 + i] *)
